@@ -340,4 +340,15 @@ def affineRoot : Root := fun r guess =>
     (cols.map (·.getD e 0)) ++ [-(r0.getD e 0)]
   gaussSolve rows
 
+/-- a root finder that tries a list of candidates and answers with the first that is a root -/
+def checkedRoots (cands : List Vec) : Root := fun r g =>
+  cands.find? fun c => decide (c.length = g.length) && (r c).all (fun v => v == 0)
+
+/-- the driver's root finder: exact affine solve, the answer re-checked against the residual
+    (so it never answers with a non-root, whatever the residual function is) -/
+def soundAffineRoot : Root := fun r g =>
+  match affineRoot r g with
+  | none => none
+  | some x => checkedRoots [x] r g
+
 end RtcVerif.C09
